@@ -2,7 +2,7 @@
 //! count tracer. Events are appended under a spin lock (so the order of the log is a total
 //! order consistent with real time) and drained by the interpreter after every step.
 
-use std::cell::UnsafeCell;
+use std::cell::{Cell, UnsafeCell};
 use std::sync::atomic::{AtomicBool, AtomicUsize, Ordering};
 
 #[derive(Clone, Copy, Debug, PartialEq, Eq)]
@@ -10,13 +10,13 @@ pub enum Ev {
     Alloc { addr: usize, size: usize, align: usize },
     AllocFail { size: usize, align: usize },
     /// status: 0 ok, 1 layout differs from the request, 2 block already freed
-    Dealloc { addr: usize, size: usize, align: usize, status: u8, rsize: usize, ralign: usize },
+    Dealloc { addr: usize, size: usize, align: usize, status: u8, rsize: usize, ralign: usize, tid: u32 },
     /// payload destructor ran on a well-formed object
-    Drop { id: u32, addr: usize },
+    Drop { id: u32, addr: usize, tid: u32 },
     /// payload destructor ran on something that is not a live object (poison / already dropped)
     BadDrop { addr: usize, magic: u32 },
     /// payload Clone::clone call (new == 0: the call panicked)
-    Clone { src: u32, new: u32 },
+    Clone { src: u32, new: u32, tid: u32 },
     /// count operation (op: 0 load, 1 store, 2 fetch_add, 3 fetch_sub, 4 swap, 5 cas, 6 fence)
     /// order: 0 relaxed, 1 release, 2 acquire, 3 acqrel, 4 seqcst
     Atomic { cell: usize, op: u8, operand: usize, order: u8, seen: usize, tid: u32 },
@@ -24,6 +24,14 @@ pub enum Ev {
     Access { addr: usize, kind: u8, tid: u32 },
     /// marker written by the threaded runner
     Mark { tid: u32, code: u32, a: usize },
+}
+
+thread_local! {
+    /// small id of the current thread (set by the threaded runner; 0 elsewhere)
+    pub static TID: Cell<u32> = const { Cell::new(0) };
+}
+pub fn tid() -> u32 {
+    TID.with(|t| t.get())
 }
 
 pub struct Log {
